@@ -87,6 +87,9 @@ def constructed(rng):
                 out += all_ops(-c, k)
         for s in range(19):
             out += all_ops(v if rng.random() < 0.5 else -v, s)
+    # multiples of 10^n beyond 2^64 / 2^128 reduced modulo the word size
+    for c, n_ in G.wrapped_multiples():
+        out += all_ops(c if rng.random() < 0.5 else -c, n_)
     # coefficients with binary-structured limbs, and literals whose leading digits form a binary-structured number
     # (carry propagation in limb-wise digit accumulation), at the scales that align the parser's digit groups
     for _ in range(1500):
